@@ -82,7 +82,7 @@ impl Property for P {
     fn cases(tier: Tier) -> u64 {
         match tier {
             Tier::Quick => 20_000,
-            Tier::Thorough => 150_000,
+            Tier::Thorough => 1_500_000,
         }
     }
     fn strategy(_tier: Tier) -> BoxedStrategy<Case> {
